@@ -124,6 +124,11 @@ func loadWorld(repo string) (*World, error) {
 		}
 		pkgs = flat
 	}
+	if d := os.Getenv("KPVERIFY_DUMP_NORMALISED"); d != "" {
+		for k, v := range overlayAll {
+			os.WriteFile(d+"/"+strings.ReplaceAll(strings.TrimPrefix(k, repo+"/"), "/", "_"), v, 0o644)
+		}
+	}
 	prog, spkgs := ssautil.AllPackages(pkgs, ssa.InstantiateGenerics)
 	prog.Build()
 	w := &World{repo: repo, fset: pkgs[0].Fset, pkgs: pkgs, prog: prog, ssaPkgs: map[string]*ssa.Package{}, loadNotes: loadNotes}
